@@ -172,6 +172,16 @@ let run_case line =
       if t1 = t0 then Buffer.add_string b "|T1==" else Buffer.add_string b ("|T1=" ^ hex_of_bytes t1);
       Buffer.add_string b (if ms' = List.map M.norm_module ms then "|AST=norm" else "|AST=differs")
   end;
+  (* hypotheses of the text theorems (coq/C10/TextWfDec.v): WFT = wf_text_b ms; RL = relabel_ctx: id (labels already
+     numbered the scanner's way) / renamed / none; WFT2 = wf_text_b of the renamed context and its canonicity (the
+     hypotheses of text_module_fixpoint for the second round) *)
+  let wft = M.wf_text_b M.parseF M.parseD M.parseLD M.fmtF M.fmtD M.fmtLD in
+  Buffer.add_string b (if wft ms then "|WFT=1" else "|WFT=0");
+  (match M.relabel_ctx ms with
+   | None -> Buffer.add_string b "|RL=none"
+   | Some msr ->
+     Buffer.add_string b (if msr = ms then "|RL=id" else "|RL=renamed");
+     Buffer.add_string b (if wft msr && M.relabel_ctx msr = Some msr then "|WFT2=1" else "|WFT2=0"));
   (match M.scan_ctx M.parseF M.parseD M.parseLD t0 with
    | M.Err why -> Buffer.add_string b ("|SC=ERR:" ^ ocaml_string why)
    | M.Ok ms2 ->
